@@ -39,30 +39,36 @@ def _c(steps, actions, names, latexes=("none",), dims=("length",), assums=("posi
 
 # Several configurations per tier: TLC explores ALL histories of each (the alphabets are sub-domains of the
 # parameters; depth 5 = quick, depth 7 = thorough, plus wide alphabets at smaller depth).
+FULL = dict(latexes=("none", "R"), assums=("none", "positive", "real"), cassums=("inherit", "positive", "real"),
+            subs=("none", "0"))
 CFG = {
     "quick": {
-        # every creation kind, the same display name everywhere (the aliasing hazard), depth 5
-        "kinds5": _c(5, CREATE, {"r"}, systypes=("cartesian", "cylindrical")),
-        # creations and all three clone helpers with subscripts, depth 5
-        "clones5": _c(5, ["NewSymbol", "NewIndexed"] + CLONE, {"r"}, subs=("none", "0")),
-        # full parameter domains at depth 3
-        "wide3": _c(3, CREATE + CLONE, {"none", "r", "T"}, latexes=("none", "R"), dims=("one", "length", "time"),
-                    assums=("none", "positive", "real"), cassums=("inherit", "positive", "real"),
-                    subs=("none", "0"), systypes=("cartesian", "cylindrical", "spherical")),
-        # names given / not given, LaTeX overrides, assumptions passed / inherited through chains of clones
-        "clones4": _c(4, ["NewSymbol"] + CLONE, {"none", "r"}, latexes=("none", "R"), assums=("none", "positive"),
+        # the creation kinds of the statement, the same display name everywhere (the aliasing hazard), depth 5
+        "kinds5": _c(5, ["NewSymbol", "NewIndexed", "NewFunction", "NewQuantity", "NewSystem", "Rotate"], {"r"}),
+        # every creation kind incl. transforms and the vector classes that draw on the same counters, depth 4
+        "create4": _c(4, CREATE, {"r"}, systypes=("cartesian", "cylindrical")),
+        # creations and all three clone helpers with a subscript, depth 5
+        "clones5": _c(5, ["NewSymbol", "NewIndexed"] + CLONE, {"r"}, subs=("0",)),
+        # names given / not given, assumptions passed / inherited through chains of clones, depth 3
+        "chains3": _c(3, ["NewSymbol"] + CLONE, {"none", "r"}, assums=("none", "positive"),
                       cassums=("inherit", "real"), subs=("none", "0")),
+        # LaTeX overrides through chains of clones, depth 3
+        "latex3": _c(3, ["NewSymbol", "NewIndexed"] + CLONE, {"r"}, latexes=("none", "R"), subs=("none", "0")),
+        # full parameter domains (3 names, 2 LaTeX names, 2 dimensions, 3 assumption sets, subscripts), depth 2
+        "wide2": _c(2, ["NewSymbol", "NewIndexed"] + CLONE, {"none", "r", "T"}, dims=("one", "length"), **FULL),
     },
     "thorough": {
-        "kinds6": _c(6, CREATE, {"r"}, systypes=("cartesian", "cylindrical")),
-        "kinds7": _c(7, ["NewSymbol", "NewFunction", "NewQuantity", "NewSystem", "Rotate", "NewVectorSymbol"], {"r"}),
-        "clones6": _c(6, ["NewSymbol", "NewIndexed"] + CLONE, {"r"}, subs=("none", "0")),
+        "kinds7": _c(7, ["NewSymbol", "NewFunction", "NewQuantity", "NewSystem", "Rotate"], {"r"}),
+        "kinds6": _c(6, ["NewSymbol", "NewIndexed", "NewFunction", "NewQuantity", "NewSystem", "Transform", "Rotate"],
+                     {"r"}),
+        "create5": _c(5, CREATE, {"r"}, systypes=("cartesian", "cylindrical")),
         "clones7": _c(7, ["NewSymbol", "CloneAsSymbol", "CloneAsFunction"], {"r"}, subs=("0",)),
-        "wide3": _c(3, CREATE + CLONE, {"none", "r", "T"}, latexes=("none", "R"), dims=("one", "length", "time"),
-                    assums=("none", "positive", "real"), cassums=("inherit", "positive", "real"),
-                    subs=("none", "0"), systypes=("cartesian", "cylindrical", "spherical")),
-        "clones4": _c(4, ["NewSymbol", "NewIndexed"] + CLONE, {"none", "r"}, latexes=("none", "R"),
-                      assums=("none", "positive"), cassums=("inherit", "real"), subs=("none", "0")),
+        "clones6": _c(6, ["NewSymbol", "NewIndexed"] + CLONE, {"r"}, subs=("0",)),
+        "chains4": _c(4, ["NewSymbol"] + CLONE, {"none", "r"}, assums=("none", "positive"),
+                      cassums=("inherit", "real"), subs=("none", "0")),
+        "latex4": _c(4, ["NewSymbol", "NewIndexed"] + CLONE, {"r"}, latexes=("none", "R"), subs=("none", "0")),
+        "wide2": _c(2, CREATE + CLONE, {"none", "r", "T"}, dims=("one", "length", "time"),
+                    systypes=("cartesian", "cylindrical", "spherical"), **FULL),
     },
 }
 
@@ -274,7 +280,9 @@ def _behaviour(L, mobjs, live, names, translate, bad, out, case):
     if not terms:
         return
     form = sp.Add(*[PRIMES[i] * t for i, _m, _o, t in terms])
-    full_solve = case.get("full_solve", False)
+    # solve (the expensive part) w.r.t. the newest object and one more, chosen by the history's number:
+    # histories share prefixes, so every object of every prefix is solved for in some extension
+    solve_for = {len(terms) - 1, case.get("nr", 0) % len(terms)}
     for i, m, _o, t in terms:
         c = PRIMES[i]
         rest = sp.Add(*[PRIMES[j] * u for j, _m2, _o2, u in terms if j != i])
@@ -289,12 +297,14 @@ def _behaviour(L, mobjs, live, names, translate, bad, out, case):
             d = None
         if d is not None and d != c:
             bad("behaviour.diff", f"d/d({tag}) of {form} gave {d}, expected {c}")
-        try:
-            sol = sp.solve(form, t) if (full_solve and i == len(terms) - 1) else \
-                sp.solve(form, t, check=False, simplify=False)
-        except Exception as e:  # pylint: disable=broad-except
-            out.append(("outside", "solve", f"solve w.r.t. a {m['kind']} raised {type(e).__name__}"))
-            sol = None
+        sol = None
+        if i in solve_for:
+            try:
+                # check=False: SymPy's own check would drop a solution that contradicts the assumptions of the
+                # unknown (a positive symbol equal to a negative combination), which is not aliasing
+                sol = sp.solve(form, t, check=False, simplify=False)
+            except Exception as e:  # pylint: disable=broad-except
+                out.append(("outside", "solve", f"solve w.r.t. a {m['kind']} raised {type(e).__name__}"))
         if sol is not None:
             if len(sol) != 1 or sp.expand(c * sol[0] + rest) != 0:
                 bad("behaviour.solve", f"solving {form} = 0 for {tag} gave {sol}, expected [{-rest / c}]")
@@ -340,7 +350,7 @@ def enumerate_and_replay(run: Run, sc, cfgd: dict, pool, label: str, streams: di
     res2 = run_tlc("Symbols", cfg2, sc, workers=1, allow_violation=False, timeout=1500)
     cases = res2.printed
     for i, c in enumerate(cases):
-        c["full_solve"] = (i % 8 == 0)      # SymPy's default (checking) solve on every 8th history, fast solve on all
+        c["nr"] = i
     run.coverage.setdefault("histories_emitted", {})[label] = len(cases)
     ops: dict = {}
     for case, out, (pid, seq, events) in pmap(pool, replay_one, cases, chunk=100):
@@ -357,7 +367,8 @@ def enumerate_and_replay(run: Run, sc, cfgd: dict, pool, label: str, streams: di
             if kind == "outside":
                 run.outside(f"{clause}: {what}")
             else:
-                run.violation(f"{clause}: {key}", what, {"history": case["h"], "model_objects": case["o"], "clause": clause})
+                run.violation(f"{clause}: {key}", what, {"history": case["h"], "model_objects": case["o"], "clause": clause,
+                                                          "nr": case["nr"]})
     run.coverage.setdefault("actions_replayed", {})[label] = dict(sorted(ops.items()))
     never = sorted(set(cfgd["Actions"]) - set(ops))
     if never:
@@ -462,7 +473,7 @@ def replay_file(path: str) -> int:
     if "history" not in c:
         print("this replay file records a trace-validation finding; rerun the tier to reproduce it")
         return 0
-    case = {"h": c["history"], "o": c["model_objects"], "full_solve": True}
+    case = {"h": c["history"], "o": c["model_objects"], "nr": c.get("nr", 0)}
     _, out, _ = replay_one(case)
     bad = [o for o in out if o[0] == "violation"]
     for o in bad:
